@@ -1,4 +1,5 @@
 SPECIFICATION Spec
 CONSTANTS Scenarios <- ScNoise
+          ServerStrictRule = "peer"
 INVARIANTS Emit
 CHECK_DEADLOCK FALSE
